@@ -9,9 +9,11 @@ from mpmath import mpf
 from . import algebra as A, atoms as AT, storch as st, smt, loader as LD
 from .algebra import Frac, Poly, SymBool, Inf, mkcond
 from .atoms import EngineGap
+from .loopcut import StopPath
+from . import loopcut
 
 
-class Infeasible(Exception): pass
+class Infeasible(BaseException): pass
 class PathLimit(Exception): pass
 
 
@@ -480,12 +482,15 @@ def run_symbolic(fn, loader, max_paths=64, z3_timeout=2000, seed=0, witness_trie
         orc = PathOracle(prefix, z3_timeout)
         A.set_oracle(orc)
         st.LAST_CTX.clear()
+        loopcut.DISPATCH.contracts.clear(); loopcut.DISPATCH.log.clear()
         env = Env('sym', loader=loader)
         outcome = 'ok'; err = None
         try:
             fn(env)
         except Infeasible:
             outcome = 'infeasible'
+        except StopPath:
+            outcome = 'ok'
         except EngineGap as e:
             outcome = 'gap'; err = str(e)
         except AssertionError as e:
@@ -525,7 +530,7 @@ def find_witness(env, orc, ctx, seed, tries, eps_value):
     n = 0
     for combo in itertools.cycle(combos):
         n += 1
-        if n > tries: return None
+        if n > tries: return _z3_witness(env, orc, ctx, eps_value)
         sample = {d.name: sample_decl(d, r, rng) for d, r in zip(decls, combo)}
         try:
             sv = symvals_from_sample(decls, sample)
@@ -536,6 +541,31 @@ def find_witness(env, orc, ctx, seed, tries, eps_value):
                 return dict(sample=sample, regimes=list(combo))
         except (ZeroDivisionError, KeyError, ValueError):
             continue
+    return None
+
+
+def _z3_witness(env, orc, ctx, eps_value):
+    """when sampling fails (equality-constrained paths): a z3 model is a true witness provided the
+    context has no transcendental atoms"""
+    if any(k not in ('sym', 'sqrt') for k in ctx.kind): return None
+    try:
+        m = smt.model(list(orc.path) + [f for f in ctx.facts], 5000)
+    except Exception:
+        return None
+    if m is None: return None
+    sample = {}
+    for d in env.decls:
+        sample[d.name] = [float(m.get(v, 0)) for v in d.vids]
+    try:
+        sv = symvals_from_sample(env.decls, sample)
+        if ctx.eps is not None:
+            ev = list(ctx.eps.num.vars())[0]
+            sv[ev] = mpf(float(m.get(ev, eps_value)))
+        val = AT.valuation(sv)
+        if all(c.evalf(val, 1e-30) for c in orc.path):
+            return dict(sample=sample, regimes=['z3-model'])
+    except Exception:
+        pass
     return None
 
 
